@@ -98,7 +98,12 @@ type converter struct {
 	tcpsvcAnnotations  map[*hatypes.TCPServicePort]*annotations.Mapper
 	hostAnnotations    map[*hatypes.Host]*annotations.Mapper
 	backendAnnotations map[*hatypes.Backend]*annotations.Mapper
-	ingressClasses     map[string]*ingressClassConfig
+	// hostOrder and backendOrder have the keys of hostAnnotations and
+	// backendAnnotations in the order they were declared, which is the order
+	// of the ingress list - creation time, then namespace/name.
+	hostOrder      []*hatypes.Host
+	backendOrder   []*hatypes.Backend
+	ingressClasses map[string]*ingressClassConfig
 }
 
 func (c *converter) ReadAnnotations(backend *hatypes.Backend, services []*api.Service, pathLinks []*hatypes.PathLink) {
@@ -702,28 +707,29 @@ func (c *converter) fullSyncTCP() {
 
 func (c *converter) fullSyncAnnotations() {
 	c.fullSyncTCP()
-	for _, host := range c.haproxy.Hosts().Items() {
-		if ann, found := c.hostAnnotations[host]; found {
-			c.updater.UpdateHostConfig(host, ann)
-		}
-	}
-	for _, backend := range c.haproxy.Backends().Items() {
-		if ann, found := c.backendAnnotations[backend]; found {
-			c.updater.UpdateBackendConfig(backend, ann)
-		}
-	}
+	c.syncAnnotations(c.haproxy.Hosts().Items(), c.haproxy.Backends().Items())
 }
 
 func (c *converter) partialSyncAnnotations() {
 	c.fullSyncTCP()
-	for _, host := range c.haproxy.Hosts().ItemsAdd() {
-		if ann, found := c.hostAnnotations[host]; found {
-			c.updater.UpdateHostConfig(host, ann)
+	c.syncAnnotations(c.haproxy.Hosts().ItemsAdd(), c.haproxy.Backends().ItemsAdd())
+}
+
+// syncAnnotations applies the annotations read so far to the hosts and backends
+// of the provided sets. Hosts and backends are visited in the order they were
+// declared, ingress by ingress as sorted by sortIngress(), instead of the random
+// order of the maps: some configurations are first come, first served - a hostname
+// in the redirect-from of two hosts, the ports of the auth proxy - and the winner
+// should be the older ingress, not a distinct one on every sync.
+func (c *converter) syncAnnotations(hosts map[string]*hatypes.Host, backends map[string]*hatypes.Backend) {
+	for _, host := range c.hostOrder {
+		if hosts[host.Hostname] == host {
+			c.updater.UpdateHostConfig(host, c.hostAnnotations[host])
 		}
 	}
-	for _, backend := range c.haproxy.Backends().ItemsAdd() {
-		if ann, found := c.backendAnnotations[backend]; found {
-			c.updater.UpdateBackendConfig(backend, ann)
+	for _, backend := range c.backendOrder {
+		if backends[backend.ID] == backend {
+			c.updater.UpdateBackendConfig(backend, c.backendAnnotations[backend])
 		}
 	}
 }
@@ -822,6 +828,7 @@ func (c *converter) addHost(hostname string, source *annotations.Source, ann map
 	if !found {
 		mapper = c.mapBuilder.NewMapper()
 		c.hostAnnotations[host] = mapper
+		c.hostOrder = append(c.hostOrder, host)
 	}
 	conflict := mapper.AddAnnotations(source, hatypes.CreateHostPathLink(hostname, "/", hatypes.MatchExact), ann)
 	if len(conflict) > 0 {
@@ -916,6 +923,7 @@ func (c *converter) addBackendWithClass(source *annotations.Source, pathLink *ha
 	if !found {
 		mapper = c.mapBuilder.NewMapper()
 		c.backendAnnotations[backend] = mapper
+		c.backendOrder = append(c.backendOrder, backend)
 	}
 	// Starting with service annotations, giving precedence
 	_, _, svcann := c.readAnnotations(source, svc.Annotations)
